@@ -95,6 +95,7 @@ def outStr : Out → String
 
 def isStrAnn : Ann → Bool | .strAnn _ => true | _ => false
 
+def regionsEnv (env : Env) (a : Ann) : List String := if a.hasUnresolvedFwd env then ["fwdUnresolved"] else []
 def regions (a : Ann) (v : Val) : List String :=
   (if isStrAnn a then ["strAnn"] else []) ++
   (if v.hasNT then ["namedtuple"] else []) ++
@@ -109,6 +110,6 @@ def handle (c : Json) : Json :=
   let v := parseVal (jF c "val")
   let o := checkType env (fun _ _ => .raisedOther) a v
   mkObj [("out", jStr (outStr o)), ("spec", jBool (conforms env a v)), ("inVocab", jBool a.inVocab),
-         ("plain", jBool v.plain), ("wf", jBool (v.wf env)), ("regions", jArr ((regions a v).map jStr))]
+         ("plain", jBool v.plain), ("wf", jBool (v.wf env)), ("regions", jArr ((regions a v ++ regionsEnv env a).map jStr))]
 
 end PedVerif.Drv.Checker
